@@ -14,7 +14,7 @@ import tempfile
 import warnings
 
 
-def main(repo, data_dir, out, order='f', mode='full'):
+def main(repo, data_dir, out, order='f', mode='full', carry=None):
     sys.path.insert(0, repo)
     import wn
     import wn.taxonomy
@@ -268,9 +268,54 @@ def main(repo, data_dir, out, order='f', mode='full'):
         conn.close()
     wn._db.pool.clear()
     d1 = dump()
+    carried = []
+    if carry:
+        carried = carried_arguments(wn, carry, call, c)
     with open(out, 'w', encoding='utf-8') as f:
-        json.dump({'reps': reps, 'dump_before': d0, 'dump_after': d1}, f, ensure_ascii=False)
+        json.dump({'reps': reps, 'dump_before': d0, 'dump_after': d1, 'carried': carried},
+                  f, ensure_ascii=False)
+
+
+def carried_arguments(wn, carry, call, c):
+    """Synset objects as ARGUMENTS that come from another interpreter (pickled there after
+    ordinary use, i.e. after having been hashed): the first battery process writes them, every
+    later one - running under another hash seed - calls the pairwise functions with them and
+    with freshly fetched objects of the same synsets; the answers must be the same."""
+    import pickle
+    w = wn.Wordnet()
+    fresh = w.synsets()[:6]
+    if not os.path.exists(carry):
+        len({x for x in fresh})
+        with open(carry, 'wb') as fh:
+            pickle.dump(fresh, fh)
+        return []
+    with open(carry, 'rb') as fh:
+        old = pickle.load(fh)
+    diffs = []
+    byid = {}
+    for x in fresh:
+        byid[(x.lexicon().specifier(), x.id)] = x
+    pairs = []
+    for a in old:
+        for b in old:
+            fa = byid.get((a.lexicon().specifier(), a.id))
+            fb = byid.get((b.lexicon().specifier(), b.id))
+            if fa is not None and fb is not None:
+                pairs.append((a, b, fa, fb))
+    for a, b, fa, fb in pairs:
+        for name, fn in (('shortest_path', wn.taxonomy.shortest_path),
+                         ('common_hypernyms', wn.taxonomy.common_hypernyms),
+                         ('lowest_common_hypernyms', wn.taxonomy.lowest_common_hypernyms),
+                         ('path', wn.similarity.path), ('wup', wn.similarity.wup)):
+            for sim in (False, True):
+                got, want = call(fn, a, b, sim), call(fn, fa, fb, sim)
+                if got != want:
+                    diffs.append({'call': name, 'simulate_root': sim, 'a': a.id, 'b': b.id,
+                                  'carried': got, 'fresh': want})
+        if (a == fa) is not True or hash(a) != hash(fa):
+            diffs.append({'call': 'hash/eq', 'a': a.id})
+    return diffs[:5]
 
 
 if __name__ == '__main__':
-    main(*sys.argv[1:6])
+    main(*sys.argv[1:7])
